@@ -106,6 +106,15 @@ PLANS = {
                 "fast and checked (overflow checks) builds; distinct = distinct (transcript, k)",
                 [dict(flavor="fast", lane="free", secs=8), dict(flavor="checked", lane="free", secs=8)], [dict(flavor="fast", lane="free", secs=150), dict(flavor="checked", lane="free", secs=150)], 5000, 50000,
                 ["'transported 2^32 events before' is restated as a constructor-time sequence origin (feature `verif`): the counters are the only state that remembers how many events flowed"]),
+    "C18": plan("one evaluation = one concurrent history (2-4 threads, 2-9 operations each or fill-until-full / drain-until-empty bursts) on the atomic-flag stack, the parking-lot stack (free-running only), "
+                "the atomic and the full-sync NonBlockingQueue, capacity 2/4/8, checked by WGL against the bounded LIFO / FIFO model; workload `long`: free-running threads, 50k-450k operations each, "
+                "checked for conservation (and per-producer order for the queues); distinct = distinct observed history",
+                [ser(12), free(8), dict(flavor="fast", lane="free", secs=8, shards=8, args=["--set", "workload=long"])],
+                [ser(150), free(100), dict(flavor="fast", lane="free", secs=150, args=["--set", "workload=long"]), ser(50, flavor="checked"), dict(flavor="asan", lane="free", secs=50, crash_is_violation=True)], 2000, 20000),
+    "C19": plan("one evaluation = one execution of 1-3 writer threads recording measurements into StreamExecutor::ok_events_avg_future_duration (single writer: 1,3,5,.. so mean == count; several writers: 2t-1 for a "
+                "global ticket t, or one constant incl. the -1.0 sentinel) while 1-2 readers probe; oracles: count never decreases, every probed (count, average) pair is possible, final count == number "
+                "of inc calls, final average == arithmetic mean (relative 2e-3); non-trivial = the compare-exchange retry path was really taken in the run",
+                [ser(10), free(8), ser(5, flavor="checked", shards=8)], [ser(100), free(100), ser(50, flavor="checked")], 2000, 20000),
 }
 
 LEVEL_NOTE = ("trusted base: the harness (conductor/chaos scheduler, recorder, checkers), the placement of the hook sites, x86-64/TSO for the free-running lane, "
@@ -160,4 +169,10 @@ META = {
     "C15": meta("seqmodel", "runtime monitoring: differential replay of one script from two sequence origins (0 vs k around the 32-bit wrap) on the real objects, in builds with and without overflow checks",
                 "Randomised differential testing of the real code against itself: fresh object vs object whose counters have advanced by k.",
                 "DESIGN.md section 2, C15"),
+    "C18": meta("conductor+chaos", "runtime monitoring: recorded push/pop (enqueue/dequeue) histories checked offline by WGL against bounded LIFO / FIFO models; conservation and order on long multi-core runs",
+                "Randomised exploration: many short concurrent histories on the real containers, each decided by an exact linearizability check; long free-running runs for conservation.",
+                "DESIGN.md section 2, C18"),
+    "C19": meta("conductor+chaos", "runtime monitoring: online checker of every probed (count, average) pair against what the recorded measurements allow, final conservation of the count; scheduler forces the CAS retry path",
+                "Randomised exploration with measurement sequences chosen so that a lost update or a mixed pair is arithmetically visible.",
+                "DESIGN.md section 2, C19"),
 }
